@@ -86,6 +86,27 @@ CHECKS = {
   note="How GDAL exposes masks (alpha honoured only for 1/3-band Byte/UInt16 + alpha) is GDAL's rule; WarpedVRT mask handling "
        "is not modelled.",
   tech="Lean 4 proof (case analysis, list congruence) + bit-identity differential runs across encodings", ref='7 C08'),
+ 'C11': dict(
+  text="Proof (Lean 4) over exact rationals: block sums are additive over any split of the pixels, accumulating the blocks of any "
+       "partition gives the whole-image sums, in any completion order (sums_additive_over_partition, fold_perm); N = number of "
+       "jointly valid processing pixels; RMSE^2 = mean squared difference; r2 = squared Pearson correlation (centred-sum identity); "
+       "rRMSE^2 = RMSE^2/mean(ref)^2 (12 theorems). Tied to the code by RasterCompare.process on integer-valued pairs with holes (model "
+       "resampler + cmpstats give the exact values): N exact, r2/RMSE/rRMSE to 5e-5, 3 partitions x threads 1/2/4 must agree, Mean "
+       "row = band average, CLI JSON = API.",
+  note="Known findings (open): D7 forced finer processing grid with a non-nearest kernel (block-edge effects), D10 duplicate band "
+       "names collapse rows, D11 N partition-dependent in tie geometry on a forced finer grid. Square roots are not modelled "
+       "(squares compared). GDAL cubic/cubic_spline up-sampling is not modelled (those cases only get the partition check).",
+  tech="Lean 4 proof (list induction, permutation invariance of a commutative fold, field algebra) + differential runs", ref='7 C11'),
+ 'C12': dict(
+  text="Proof (Lean 4): tile accumulators are additive, tiling- and completion-order-invariant (tile_partition_invariant, "
+       "pacc_fold_perm); skipping empty tiles is sound, choosing them from band 1 is not (checked witness, D6); mean = sum/n; "
+       "one-pass variance = population variance; min/max are attained bounds; in-paint percentage = 100 #(R2<t)/n; R2 bands are the "
+       "last third (17 theorems). Tied to the code by ParamStats.stats on synthetic parameter images with band-specific validity and "
+       "on images written by real fusions, each with 2 of 5 tilings and threads 1/2/4: every figure vs the exact model (pstats), "
+       "figures equal across tilings, CLI JSON = API.",
+  note="Bands holding +-inf (R2 with zero TSS) are outside the rational model and skipped in the value comparison. std is "
+       "compared squared.",
+  tech="Lean 4 proof (commutative-monoid fold invariance, algebra over Q) + differential runs", ref='7 C12'),
  'C13': dict(
   text="Proof (Lean 4): round-half-even is within half a unit and ties go to even (rhe_nearest, rhe_tie_even); a valid float32 "
        "value becomes the nearest integer clamped into the range, +-inf and out-of-range values saturate, the stored integer is "
